@@ -31,3 +31,62 @@ impl Default for Override {
         Self::new()
     }
 }
+
+/// H1: treat every Parquet table as "big" for the streaming-scan decision
+/// (`Some(1)`), without writing a > 400 MB file.
+pub static FORCE_STREAMING_SCAN: Override = Override::new();
+/// H1: extra cap (bytes) on the shared-table prescan, below the production
+/// 400 MB one.
+pub static PRESCAN_MAX_BYTES: Override = Override::new();
+/// H2: lower bound of the dense key range that selects disjoint aggregation
+/// (production: 2_000_000).
+pub static DENSE_RANGE_MIN: Override = Override::new();
+/// H3: minimum row count at which an in-memory table scan becomes
+/// multi-partition (production: 1000).
+pub static MEM_PARTITION_MIN_ROWS: Override = Override::new();
+
+// ---- H4: IPC sidecar races (src/storage/ipc_cache.rs) ----------------------
+
+use std::cell::Cell;
+use std::sync::{Arc, RwLock};
+
+thread_local! {
+    static VIRTUAL_PID: Cell<Option<u32>> = const { Cell::new(None) };
+    static THREAD_IPC_MODE: Cell<Option<u8>> = const { Cell::new(None) };
+}
+
+/// Make the calling thread a "virtual process": its sidecar staging directory
+/// is named after `pid` and it does not take this process's build lock.
+pub fn set_virtual_pid(pid: Option<u32>) {
+    VIRTUAL_PID.with(|c| c.set(pid));
+}
+
+pub fn virtual_pid() -> Option<u32> {
+    VIRTUAL_PID.with(|c| c.get())
+}
+
+/// Per-thread override of `QE_IPC_CACHE`: 0 = off, 1 = build, 2 = auto.
+pub fn set_thread_ipc_mode(mode: Option<u8>) {
+    THREAD_IPC_MODE.with(|c| c.set(mode));
+}
+
+pub fn thread_ipc_mode() -> Option<u8> {
+    THREAD_IPC_MODE.with(|c| c.get())
+}
+
+type PointCallback = Arc<dyn Fn(&str) + Send + Sync>;
+static POINT_CALLBACK: RwLock<Option<PointCallback>> = RwLock::new(None);
+
+/// Install (or clear) the scheduling-point callback.
+pub fn set_point_callback(cb: Option<PointCallback>) {
+    *POINT_CALLBACK.write().unwrap() = cb;
+}
+
+/// A scheduling point: placed before each operation on shared file-system
+/// state. A no-op unless the harness installed a callback.
+pub fn point(label: &str) {
+    let cb = POINT_CALLBACK.read().unwrap().clone();
+    if let Some(cb) = cb {
+        cb(label);
+    }
+}
